@@ -728,7 +728,23 @@ class Engine:
         spec = self.policy.get(("loop", env.func_key(), _loop_ordinal(env, st)))
         if spec is not None:
             return self.for_by_invariant(spec, st, env, it)
-        items = self.iterate(it, node=st, env=env)
+        try:
+            items = self.iterate(it, node=st, env=env)
+        except Unsupported:
+            # "out = []; for t in xs: [if c:] out.append(e)" over a sequence of symbolic length is the comprehension
+            # [e for t in xs if c] (same elements, same order); recognised so that this harmless rewrite stays decidable
+            shape = _append_loop_shape(st)
+            if shape is None:
+                raise
+            out_name, elt, test = shape
+            cur = env.lookup(out_name, None)
+            if not (isinstance(cur, list) and cur == []):
+                raise
+            comp = ast.ListComp(elt=elt, generators=[ast.comprehension(target=st.target, iter=st.iter, ifs=[test] if test is not None else [], is_async=0)])
+            ast.copy_location(comp, st)
+            ast.fix_missing_locations(comp)
+            env.bind(out_name, self.eval(comp, env))
+            return
         broke = False
         for x in items:
             self.assign(st.target, x, env)
@@ -2398,6 +2414,23 @@ def _or(cs):
 
 def _and2(a, b):
     return _and([a, b])
+
+
+def _append_loop_shape(st):
+    """(list name, element expression, optional condition) when the loop body only appends to one local list"""
+    if st.orelse or len(st.body) != 1:
+        return None
+    b, test = st.body[0], None
+    if isinstance(b, ast.If) and not b.orelse and len(b.body) == 1:
+        test, b = b.test, b.body[0]
+    if not (isinstance(b, ast.Expr) and isinstance(b.value, ast.Call) and isinstance(b.value.func, ast.Attribute) and b.value.func.attr == "append"
+            and isinstance(b.value.func.value, ast.Name) and len(b.value.args) == 1 and not b.value.keywords):
+        return None
+    out = b.value.func.value.id
+    used = {n.id for x in ([b.value.args[0]] + ([test] if test is not None else [])) for n in ast.walk(x) if isinstance(n, ast.Name)}
+    if out in used:
+        return None
+    return out, b.value.args[0], test
 
 
 def _short_name(o, depth=0):
